@@ -519,7 +519,7 @@ class ExprMixin:
 
     def contains(self, container, item, st, line):
         item_u = item
-        if isinstance(container, tuple) and len(container) == 2 and container[0] == 'frozenlist':
+        if isinstance(container, tuple) and len(container) == 2 and (isinstance(container[0], str) and container[0] == 'frozenlist'):
             container = container[1]
         if isinstance(container, tuple):
             items = list(container)
